@@ -2267,6 +2267,10 @@ func (tc *typechecker) checkDefault(expr *ast.Default, show bool) typeInfoPair {
 						Properties: propertyUntyped,
 					}
 				}
+			} else {
+				// Check it as an identifier so that, in a function, it is
+				// recorded as an upvar.
+				tis[0] = tc.checkIdentifier(n, true)
 			}
 		}
 
